@@ -327,8 +327,10 @@ func checkC20(c *Ctx) string {
 	}
 	checkCompactColumnsAfterCopy(c, "C20.4 K4 compact rewrites the column list only after the records were copied")
 	checkWorkersJoinedBeforeVerdict(c, "C20.5 K4c load reports success only after its workers were joined and reported no error")
+	checkDumpFraming(c, "C20.6 K9 dump and load agree on the record framing")
+	checkLoadRecordLoop(c, "C20.7 K5 every loaded record is checksummed, listed and counted")
 	return "One clause of dump/load/compact: the result of btree.Builder.Add is used and an iteration of every loop that feeds a builder can only end on the edge where Add accepted the key; " +
 		"in every function of db19/tools that renames a file over its target the new database's state is written before it is closed and both precede the rename (compact, load), " +
 		"dump files are flushed (result used) and closed first, the rename's result is used; compactTable asserts copied rows == Info.Nrows before adding the table and builds the new Info from that count; " +
-		"tools.buildIndexes asserts keys added == records. Not decided: content equivalence of the copied data, squeeze of deleted columns, foreign keys on load."
+		"tools.buildIndexes asserts keys added == records. Dump framing: writeInt folded to 4 big-endian bytes, the loader decodes BigEndian.Uint32 from a 4-byte buffer and stops at zero, every length prefix is the length of the value written after it, tables end with a zero. Loader: every record stored is checksummed, added to the index list, counted and sized on every path. Not decided: content equivalence of the copied data, which fields squeeze removes, foreign keys on load."
 }
